@@ -64,7 +64,8 @@ def _run_steps(mod, ctx):
     label = _ast.unparse(st).splitlines()[0][:100]
     handler = _ast.ExceptHandler(
       type=_ast.Tuple(elts=[_ast.Name(id="AnalysisError", ctx=_ast.Load()), _ast.Name(id="NameError", ctx=_ast.Load())], ctx=_ast.Load()), name="_e",
-      body=[_ast.Expr(_ast.Call(func=_ast.Attribute(value=_ast.Name(id=fn.args.args[0].arg, ctx=_ast.Load()), attr="undecide", ctx=_ast.Load()),
+      body=[_ast.If(test=_ast.parse(f"isinstance(_e, NameError) and not {fn.args.args[0].arg}.not_analysed", mode="eval").body, body=[_ast.Raise(exc=None, cause=None)], orelse=[]),
+            _ast.Expr(_ast.Call(func=_ast.Attribute(value=_ast.Name(id=fn.args.args[0].arg, ctx=_ast.Load()), attr="undecide", ctx=_ast.Load()),
                                 args=[_ast.Constant(label), _ast.Call(func=_ast.Name(id="str", ctx=_ast.Load()), args=[_ast.Name(id="_e", ctx=_ast.Load())], keywords=[])], keywords=[]))])
     body.append(_ast.Try(body=[st], handlers=[handler], orelse=[], finalbody=[]))
   fn.body = body
